@@ -4,12 +4,17 @@ import RbV.Model.Kasai
 import RbV.Model.Sus
 import RbV.Model.SampledGet
 import RbV.Model.OccTable
+import RbV.Model.Sais
 /-! Driver for property C03 (suffix array, LCP, shortest unique substrings, sampled suffix array).
 
 `c03 sa <text>                     => <sa>`                   accepted iff `checkSA text sa`
 `c03 lcp <text>                    => <sa>;<lcp>;<sus>`       `checkSA`, `lcp = lcpRef text sa`, `sus = susRef`
 `c03 int <v0,…>                    => <sa>`                   accepted iff `checkSorted text sa`
 `c03 samp <text> <f|n> <ss> <ks>   => <sa>;<g>/<g>/…`         `checkSA`, every `g = sa`
+
+On every case the mirror model of SA-IS (`Model/Sais.lean`: `suffix_array` / `suffix_array_int`, statement by statement)
+is run on the text and compared with the implementation's array: tag `sais-model=impl` or `drift-sais` (a drift is
+never a violation: the acceptance function stays the oracle).
 -/
 namespace RbV.Drv.C03
 open RbV.Codec RbV
@@ -43,6 +48,10 @@ def saTags (t : List Nat) (sa : List Nat) : String :=
     ++ (if t.length ≥ 100 then " n>=100" else "")
     ++ (if sentinelOf t ≠ 36 then " sent-not-$" else "")
 
+/-- mirror model of SA-IS next to the implementation -/
+def saisTag (model impl : List Nat) : String :=
+  if model = impl then " sais-model=impl" else " drift-sais"
+
 def failOut (out : String) : Option String :=
   if out.startsWith "PANIC" || out.startsWith "HANG" || out.startsWith "CRASH" then some ("reject " ++ out)
   else none
@@ -53,7 +62,7 @@ def verdict (toks : List String) (out : String) : String :=
     match parseHex th with
     | some t =>
       match parseNatList out with
-      | some sa => if checkSA t sa then "ok" ++ saTags t sa else "reject not-a-sorted-suffix-permutation"
+      | some sa => if checkSA t sa then "ok" ++ saTags t sa ++ saisTag (Sais.suffixArray t) sa else "reject not-a-sorted-suffix-permutation"
       | none => (failOut out).getD "bad-op output"
     | none => "bad-op parse"
   | ["int", tl] =>
@@ -62,6 +71,7 @@ def verdict (toks : List String) (out : String) : String :=
       match parseNatList out with
       | some sa =>
         if checkSorted t sa then "ok" ++ (if lmsCount t ≥ 2 then " nt" else "") ++ " int"
+          ++ saisTag (Sais.suffixArrayInt t) sa
         else "reject not-a-sorted-suffix-permutation"
       | none => (failOut out).getD "bad-op output"
     | none => "bad-op parse"
@@ -81,6 +91,7 @@ def verdict (toks : List String) (out : String) : String :=
             ++ (if le.any (· ≥ 127) then " lcp>=127" else "")
             ++ (if le.any (· ≥ 1) then " lcp>=1" else "")
             ++ (if Kasai.kasai t sa ≠ l || Sus.susModel sa l ≠ sus then " drift" else "")
+            ++ saisTag (Sais.suffixArray t) sa
         | _, _, _ => "bad-op output"
       | _ => (failOut out).getD "bad-op output"
     | none => "bad-op parse"
@@ -113,6 +124,7 @@ def verdict (toks : List String) (out : String) : String :=
               ++ (if sentCount t ≥ 2 then " multi-sent" else "")
               ++ (if ks.any (· > 64) then " k>64" else "")
               ++ (if ss.any (· ≥ t.length) then " s>=n" else "")
+              ++ saisTag (Sais.suffixArray t) sa
         | _, _ => "bad-op output"
       | _ => (failOut out).getD "bad-op output"
     | _, _, _ => "bad-op parse"
